@@ -1,13 +1,17 @@
 """C03: history + executable model monitor for the T-container (DESIGN.md section 4)."""
-from ._containers import make
+from ._containers import make, n_exhaustive
 
-TIERS = {"quick": 1200, "thorough": 20000}
+N_RANDOM = {"quick": 1200, "thorough": 20000}
+TIERS = {"quick": N_RANDOM["quick"], "thorough": N_RANDOM["thorough"] + n_exhaustive("T")}
+EXHAUSTIVE = {"quick": False, "thorough": True}
 WATCHDOG_S = {"quick": 900, "thorough": 7200}
 RULE = ("one case = one generated history of 5-40 public mutating calls (every 30th thorough case 150-300) on a fresh "
         "container; after every call the full public observation is checked against the transition relation of the "
         "abstract model and the derived-query battery is evaluated. non-trivial = the history contains at least one "
-        "removal and at least one re-insertion of an existing hyperedge; distinct = by final abstract state")
+        "removal and at least one re-insertion of an existing hyperedge; distinct = by final abstract state. The thorough tier "
+        "additionally runs EVERY history of length 3 over a fixed alphabet of ~18 concrete operations on three labels (weighted and "
+        "unweighted; exhaustive for that sub-space), with the full battery after every operation")
 DECIDING = ["T:transition", "T:battery", "T:rejected-leaves-state"]
 ASSUMPTIONS = ["abstract model in hgxmon/models.py (sets and dicts) is the specification",
                "labels are mutually comparable hashables; hyperedges list each node once; no empty hyperedge is inserted directly"]
-run_case = make("T", "C03", TIERS["quick"], TIERS["thorough"])
+run_case = make("T", "C03", N_RANDOM["quick"], N_RANDOM["thorough"])
